@@ -108,10 +108,10 @@ SHARE = {
     'C06': [('C18.3', 'a callable filter receives exactly the columns it names (kwargs_support)')],
     'C08': [('C03.1', 'operators act on ALIGNED operands: the join policies'), ('C03.2', 'as-of fill'), ('C03.3', 'array alignment'), ('C03.7', 'every operand enters the common index'),
             ('C03.8', 'missing columns are NaN, not a number'), ('C03.9', 'nested operands are found'), ('C03.10', 'the call-time policies override the decorator defaults axis by axis')],
-    'C10': [('C09.1', 'drange iterates dt_bump for tenors'), ('C09.2', 'unit arithmetic of each part'), ('C09.3', 'business-day parts'), ('C09.4', 'parts applied left to right, each once')],
+    # (C10 is NOT given the dt_bump obligations of C09: its statement defines the expected list BY iterating dt_bump, so a defect of dt_bump is not a defect of drange)
     'C11': [('C07.2', 'groups are runs of cmp-equal keys in cmp order'), ('C07.3', 'numeric / NaN keys'), ('C07.9', 'string keys rank like native order'), ('C07.10', 'numpy scalars as keys'),
             ('C07.11', 'None keys')],
-    'C12': [('C13.1', 'nona with an edge cuts with df_slice(..., openclose="[]")'), ('C13.2', 'closed bounds keep the boundary row')],
+    # (C12 is not given the df_slice obligations: its statement speaks of the 'nona' METHOD, which does not go through the edge slicing of _nona)
     'C16': [('C15.1', 'd + other is tree_update: neither operand modified'), ('C15.3', 'override semantics of the merge'), ('C18.8', 'Dict.__call__ binds arguments by name'), ('C18.3', 'the names a callable takes from the mapping are getargs(f): positional AND keyword-only parameters')],
     'C20': [('C02.1', 'perdictable joins its inputs with dictable.join'), ('C02.4', 'cross product of equal keys'), ('C02.5', 'anti-join for the defaulted side'), ('C02.6', 'mode / key columns'),
             ('C02.9', 'key columns of the joined table')],
